@@ -35,7 +35,7 @@ RE_PUSH_LITERAL = re.compile(r"PUSH_LITERAL")
 RE_RANGE_OP = re.compile(r"\.\.")
 RE_RULE_DOC = re.compile(r"///")
 RE_TAG = re.compile(r"#[_a-zA-Z][_a-zA-Z0-9]*(?=\s*=)")
-RE_WHITESPACE = re.compile(r"[ \t\n\r]+")
+RE_WHITESPACE = re.compile(r"(?:[ \t\n]|\r\n)+")
 # character = ${ "'" ~ (escape | ANY) ~ "'" }. A lone backslash is never a
 # character: `\'` is an escape, so nothing is left to close the literal.
 RE_CHAR = re.compile(
